@@ -419,7 +419,11 @@ def cart2geodetic(x, y, z, ellipsoid=None):
             if not np.any(np.abs(B - B0) > 1e-10):
                 break
 
-        lat = np.rad2deg(B)
+        # B0 is the latest (most accurate) iterate: evaluate the results
+        # there instead of returning the values of the previous step.
+        N = ellipsoid[0] / np.sqrt(1 - e2 * np.sin(B0)**2)
+        h = np.hypot(x, y) / np.cos(B0) - N
+        lat = np.rad2deg(B0)
 
     return h, lat, lon
 
